@@ -12,7 +12,7 @@ from .. import oracles as orc
 
 from ai_edge_quantizer import calibrator, params_generator
 
-THEOREMS = ["C10.stats_complete", "C09.resume"]
+THEOREMS = ["C10.stats_complete", "C10.wrapper_uses_recorded_stats", "C10.params_from_stats", "C10.calibrated_lookup_never_missing", "C09.resume"]
 
 
 def gen(rng, i):
@@ -62,7 +62,7 @@ def run(ctx):
                 "with ';' separators, prefixes, alternatives, non-matching) x op selectors x configs; calibrate() then quantize() with its "
                 "result must never fail for missing statistics; both real scope builders are compared per op; calibration and the whole "
                 "pipeline are compared with the Lean model; distinct = distinct (model, recipe)")
-    common.proof_side(ctx, THEOREMS, modules=["QProps.C10", "QProps.C09"])
+    common.proof_side(ctx, THEOREMS, modules=["QProps.C10", "QProps.C10b", "QProps.C09"])
     drv = common.Driver()
     rng = ctx.rng
     n = 350 if ctx.tier == "quick" else 3000
